@@ -12,6 +12,9 @@ for d in sorted(glob.glob(os.path.join(VERIF, "harness", "c[0-9][0-9]"))):
         src = open(f).read()
         for m in re.finditer(r'(?:evid\.Fail|fail)\(\s*(?:out,\s*)?"([^"]+)"', src):
             sigs.add(m.group(1).split(":")[0])
+        # clause names computed by a helper (func sigOf ... return "name")
+        for body in re.findall(r'func sigOf\([^)]*\) string \{(.*?)\n\}', src, re.S):
+            sigs.update(re.findall(r'return "([a-z][a-z0-9-]+)"', body))
     declared[pid] = sigs
 seen = {p: {} for p in declared}
 for mp in glob.glob(os.path.join(VERIF, "seeded", "*", "meta.json")):
